@@ -125,7 +125,7 @@ theorem fwd_same {s : St} (hI : LifeInv s.1) {e' : Ep} {l' : List Out} {l2 : Lis
 
 instance : Framed fwdSpec where
   frame := by
-    intro s s' ⟨h1, _, _, h4, h5, l2, h6, h7⟩ hI
+    intro s s' ⟨h1, _, _, h4, h5, _, l2, h6, h7⟩ hI
     have : s' = (s'.1, s'.2) := rfl
     rw [this]
     exact fwd_same hI h1 h5 (by rw [h4]; exact hI.2) h6 h7
